@@ -342,8 +342,16 @@ func runBreaker(t *testing.T, rep *Report, rng *rand.Rand, n int) error {
 				now := time.Since(start)
 				succ := rng.Intn(3) == 0
 				called := false
+				// one operation in four takes time (up to a cooldown): the cooldown runs from its failure, not from its start
+				dur := time.Duration(0)
+				if rng.Intn(4) == 0 {
+					dur = time.Duration(rng.Intn(int(cd))) + 1
+				}
 				err := cb.Call(func() error {
 					called = true
+					if dur > 0 {
+						time.Sleep(dur)
+					}
 					if succ {
 						return nil
 					}
@@ -353,7 +361,10 @@ func runBreaker(t *testing.T, rep *Report, rng *rand.Rand, n int) error {
 				if succ {
 					s = 1
 				}
-				evs = append(evs, fmt.Sprintf("%d:%d", int64(now), s))
+				if !called {
+					dur = 0
+				}
+				evs = append(evs, fmt.Sprintf("%d:%d:%d", int64(now), s, int64(dur)))
 				if called {
 					inv = append(inv, "1")
 				} else {
@@ -374,7 +385,7 @@ func runBreaker(t *testing.T, rep *Report, rng *rand.Rand, n int) error {
 						consec, open = 0, false
 					} else {
 						consec++
-						lastFail = now
+						lastFail = now + dur
 						if consec >= th {
 							open = true
 						}
